@@ -48,6 +48,8 @@ def _ctors(u, v, w):
         out.append(("gen_int", lambda: u.ByteFieldGenerator.from_int(w, v)))
     else:
         out.append(("empty", lambda: u.ByteFieldEmpty()))
+    if v == 0:
+        out.append(("empty_with_width", lambda: u.ByteFieldEmpty(w)))  # the zero placeholder of a given width
     return out
 
 
@@ -88,6 +90,9 @@ def check_value(case):
         g = u.ByteFieldGenerator.from_bytes(w, buf)
         scribble(buf)
         _views(devs, g, v, w, "gen_bytes.after_caller_reused_buffer")
+    from ..core import copies_equal
+
+    copies_equal(devs, "copy", ref, lambda o: (int(o.value), int(o.byte_len), bytes(o.as_bytes).hex(), hash(o) == hash(ref), bool(o == ref)), (v, w, raw.hex(), True, True))
     for i, g in enumerate(fields[1:]):
         true(devs, "eq_same", ref == g and g == ref, f"equal (value,width) fields compare unequal (#{i + 1})")
         true(devs, "hash_same", hash(ref) == hash(g), f"equal fields hash differently (#{i + 1})")
@@ -248,8 +253,15 @@ def check_assign(case):
     for i, (kind, arg) in enumerate(case["steps"]):
         if kind == "width":
             new_w, drawn, mode = arg
+            hash(f)  # (a hash taken before the width changes must not be remembered)
             f.byte_len = new_w
             w = new_w
+            if v <= (1 << (8 * new_w)) - 1:
+                # value and width views, and with them equality and hash, follow the new width at once
+                g0 = u.UnsignedByteField(v, new_w)
+                true(devs, "after_width_set.eq_fresh", f == g0 and g0 == f, f"step {i}: field != fresh field of the re-declared width")
+                true(devs, "after_width_set.hash_fresh", hash(f) == hash(g0), f"step {i}: hash differs from a fresh field of the re-declared width")
+                true(devs, "after_width_set.dict_lookup", {f: 1}.get(g0) == 1 and {g0: 1}.get(f) == 1, f"step {i}: dictionary lookup by an equal field fails")
             mask = (1 << (8 * new_w)) - 1
             if mode == 0 and v <= mask:
                 pass  # the same number is assigned again under the new width
